@@ -15,7 +15,10 @@ RULE = ("every weighted complete graph of the families in coverage.bounds (all w
         "a pre-computed matrix; plus every point sequence over a lattice (duplicates, all "
         "orders) under named metrics; a case is non-trivial when some non-prototype's optimum "
         "cost is attained only through an intermediate sample (path of >=2 arcs) or two "
-        "prototypes of different classes tie for it")
+        "prototypes of different classes tie for it; further families: non-identity index arrays into a larger "
+        "matrix, weights scaled by 1e-25..1e25, class ids 3/1000/257/70000, P(7,{0..3}), Fortran / transposed / "
+        "strided training matrices, crash-point enumeration (the same object first runs a fit interrupted at "
+        "every metric call / matrix access), and the classifier left by learn() for every RNG answer sequence")
 ASSUMPTIONS = [
     "the prototype set S flagged by the implementation is taken as given here (C02 judges S)",
     "n <= 5 (quick) / 6 (thorough) samples; weight alphabets of 2-3 values beyond n = 4 "
